@@ -6,6 +6,9 @@ use crate::interpreter::interpreter_trait::InterpreterTrait;
 
 pub fn run<S: InterpreterTrait>(interpreter: &mut S) -> Result<(), RuntimeError> {
     let len: i32 = interpreter.context()[0].try_cast()?;
+    if len < 0 {
+        return Err(RuntimeError::IllegalFunctionCall);
+    }
     let mut s: String = String::new();
     for _ in 0..len {
         s.push(' ');
